@@ -17,9 +17,13 @@ STORES = {
     "aufs": dict(cache_mem="0 MB", cache_dirs=["aufs {run}/aufs 4 4 4"], conf="acl purge method PURGE\n"),
     "diskd": dict(cache_mem="0 MB", cache_dirs=["diskd {run}/diskd 4 4 4"], conf="acl purge method PURGE\n"),
     "rock": dict(cache_mem="0 MB", cache_dirs=["rock {run}/rock 4 slot-size=4096 max-size=400000"], conf="acl purge method PURGE\n"),
+    # memory cache in front of rock: a hit may take its first bytes from memory and continue from disk part-way through the entry
+    # (tcp_recv_bufsize keeps the proxy from pushing a whole object into the socket of a reader that stops reading)
+    "rock+mem": dict(cache_mem="8 MB", cache_dirs=["rock {run}/rock 16 slot-size=4096 max-size=400000"],
+                     conf="maximum_object_size_in_memory 32 KB\ntcp_recv_bufsize 8192 bytes\nacl purge method PURGE\n"),
     "shm": dict(cache_mem="4 MB", workers=2, conf="memory_cache_shared on\nmaximum_object_size_in_memory 512 KB\nacl purge method PURGE\n"),
 }
-ORDER = ["memory", "ufs", "aufs", "diskd", "rock", "shm"]
+ORDER = ["memory", "ufs", "aufs", "diskd", "rock", "shm", "rock+mem"]
 SIZES = [0, 1, 100, 4000, 4095, 4096, 4097, 8192, 12000, 16384, 16385, 32769, 70000, 200000, 390000]
 _worker = [0]
 
@@ -38,6 +42,8 @@ def strategy(tp):
                                "cuts_permille": st.lists(st.integers(1, 999), min_size=1, max_size=4),
                                "pause_ms": st.sampled_from([5, 20, 50])}),
         st.fixed_dictionaries({"op": st.just("purge"), "u": st.integers(0, nurl - 1)}),
+        # a reader that consumes only the first k bytes of the response and goes away
+        st.fixed_dictionaries({"op": st.just("partial"), "u": st.integers(0, nurl - 1), "read": st.sampled_from([1, 2000, 9000, 30000, 60000, 130000])}),
         st.fixed_dictionaries({"op": st.just("fill"), "n": st.integers(3, 14), "size": st.sampled_from([30000, 150000, 300000])}),
     )
     return st.fixed_dictionaries({
@@ -180,6 +186,20 @@ def execute(envs, sc):
             continue
         u = op["u"]
         path, url = paths[u], env.url(paths[u])
+        if kind == "partial":
+            from vlib.e2e import client as _client
+            try:
+                pc = _client.Conn(env.port, timeout=10)
+                pc.send(("GET %s HTTP/1.1\r\nHost: x\r\nConnection: close\r\n\r\n" % url).encode())
+                dl = time.time() + 8
+                while len(pc.rbuf) < op["read"] and not pc.eof and time.time() < dl:
+                    pc._fill(dl)
+                time.sleep(0.05)
+                pc.close()
+            except OSError:
+                pass
+            r.label("op:partial")
+            continue
         if kind == "purge":
             m = fetch_url(env, url, method="PURGE")
             if not usable(m, r):
